@@ -87,7 +87,7 @@ class C11(PropBase):
     lean_modules = ["SqModel.Props.C11", "SqModel.Proofs.Dispatch", "SqModel.Proofs.Bridge", "SqModel.Proofs.BridgeRat", "SqModel.Proofs.BridgePlane", "SqModel.Proofs.BridgeTable"]
     extractors = ["dispatch", "trans"]
     rule = ("sequences over an alphabet of 37 well-formed frame kinds (incl. DF18 frames with CF 2 / 6) (every supported format, both edges of every type-code class, capability 4 and 7, a BDS 2,0 reply) x 2 aircraft (every supported format; altitude codes with Q=1), "
-            "bounded-exhaustive for length 2 and sampled for length 3 (quick) / exhaustive length 3 (thorough), plus random sequences of "
+            "bounded-exhaustive for length 2 and sampled for length 3 (1500 quick / 12000 thorough of 37^3), plus random sequences of "
             "50-300 frames with time steps; -U on/off; dump after every frame; compared with the model and with a reference fold "
             "('latest value of the last frame that carries the parameter, or blank/previous if it carried none') built from the Lean "
             "spec line of each frame; every frame is also fed twice in a row (re-feed changes nothing); BDS 5,0 replies whose bits would also pass as BDS 6,0 after a velocity squitter / a 6,0 reply (one register per reply). Non-trivial = sequence in "
@@ -183,8 +183,9 @@ class C11(PropBase):
         n = len(alpha)
         pairs = list(itertools.product(range(n), repeat=2))
         triples = list(itertools.product(range(n), repeat=3))
-        if tier == "quick":
-            triples = rng.sample(triples, 1500)
+        # every frame is a file of its own for the real reader (a thread, a file, two dumps): all 37^3 sequences of length 3 take
+        # more than an hour of mostly system time - the thorough tier samples 12000 of them, the quick tier 1500
+        triples = rng.sample(triples, 1500 if tier == "quick" else 12000)
         for u in (False, True):
             for chunk in (pairs, triples):
                 for lo in range(0, len(chunk), 1000):
